@@ -527,8 +527,16 @@ func zzC12Version() {
 	if isDiscover {
 		method = methodDiscover
 	}
+	// ... or the initialize call of the legacy handshake: its answer is where the client learns the session id (C11)
+	isInit := !isDiscover && !zzMetaPresent && vBool("isInitialize")
+	if isInit {
+		method = methodInitialize
+	}
 	w := zzNewExch("post")
 	hdr := zzCall(1, method)
+	if isInit {
+		hdr.Params = vJSON(&InitializeParams{ProtocolVersion: versions[1+vChoice("initializeVersion", 2)]})
+	}
 	// the Mcp-Method mirror is C12-H2; make it pass here
 	ctx := context.Background()
 	if hv != "" {
@@ -556,6 +564,12 @@ func zzC12Version() {
 	}
 	c.servePOST(w, req)
 	accepted := env.hangs == 1
+	// the session id travels on the answer to initialize and on no other
+	vAssert((w.hdr.Get(sessionIDHeader) != "") == (accepted && isInit && !stateless), "C11.session-id-handed-out-with-the-initialize-answer-only")
+	if w.hdr.Get(sessionIDHeader) != "" {
+		vAssert(w.hdr.Get(sessionIDHeader) == c.sessionID, "C11.session-id-handed-out-with-the-initialize-answer-only")
+		vReach("id-issued")
+	}
 	if mirror != 0 && batch == 0 && hv >= minVersionForStandardHeaders && accepted {
 		vAssert(false, "C12.post.mirror-headers-checked-before-anything-is-handed-on")
 	}
